@@ -1819,9 +1819,13 @@ size_t rtosc_scan_arg_val(const char* src,
                 //  => take it directly from there
                 if(*src == '.' && skip_fmt(&src, "%*f (%n"))
                 {
-                    sscanf(src, " ... + 0x%8"PRIx64"p-32 s )%n",
-                           &secfracs, &rd);
+                    // any hex float notation is allowed; the value is a
+                    // multiple of 2^-32, so a double holds it exactly
+                    double secfracsd = 0.0;
+                    rd = 0;
+                    sscanf(src, " ... + %lf s )%n", &secfracsd, &rd);
                     src += rd;
+                    secfracs = (uint64_t)(secfracsd * 4294967296.0);
                 }
                 // float number, but not lossless?
                 //  => convert it to fractions of seconds
